@@ -129,6 +129,17 @@ class Gen:
                 cfg['services'][-1]['chars'].append(ch)
         if not any(s['chars'] for s in cfg['services']):
             cfg['services'][0]['chars'].append(self.characteristic(False))
+        # combinations that random choice reaches too rarely for 16 configurations: a handler based value without read access
+        # (write only, and with an indication: what the control points of the CSC and bootloader services are made of)
+        if self.index % 8 == 5:
+            for want_cccd in (False, True):
+                for _ in range(200):
+                    ch = self.characteristic(want_cccd)
+                    if ch['kind'] == 'handler_rw' and (not want_cccd or 'indicate' in ch['opts']):
+                        if 'no_read_access' not in ch['opts']:
+                            ch['opts'].append('no_read_access')
+                        cfg['services'][0]['chars'].append(ch)
+                        break
         self.assign_handles(cfg, r.random() < 0.5)
         return cfg
 
